@@ -1,5 +1,7 @@
 (** C09 - A partial forest stores only true, needed hashes and can always prove its cache. *)
 From Utreexo Require Import Spec.Forest Proofs.SpecBasics.
+From Utreexo Require Import Base.Hash Model.MapRead Spec.Forest Spec.Oracle Proofs.MapReadSpec.
+From Coq Require Import List NArith.
 From Utreexo Require Import Spec.Forest Proofs.RefTheory.
 From Coq Require Import List.
 Open Scope N_scope.
@@ -32,3 +34,72 @@ Theorem C09_equiv_allowed : forall (H : Type) (HO : ops H) (s s' : slots H) (R :
   equiv HO s s' -> allowed_pos HO s R = allowed_pos HO s' R.
 Proof. exact equiv_allowed. Qed.
 Print Assumptions C09_equiv_allowed.
+
+(** ** merged from C09c.v: the mirror of the MapPollard read side (Model/MapRead.v) on states consistent with the reference *)
+
+Theorem C09c_prove_canonical : forall (H : Type) (HO : ops H), ops_ok HO ->
+  forall (s : slots H) (R : list H) (m : mstate H), consistent HO s R m ->
+  forall hs : list H, (forall h, In h hs -> In h R) -> NoDup hs ->
+  Prove HO m hs = exp_prove HO (mk_ctx HO s) hs.
+Proof. exact map_prove_canonical. Qed.
+Print Assumptions C09c_prove_canonical.
+
+Theorem C09c_prove_untracked : forall (H : Type) (HO : ops H), ops_ok HO ->
+  forall (s : slots H) (R : list H) (m : mstate H), consistent HO s R m ->
+  forall hs : list H, (exists h, In h hs /\ ~ In h R) -> Prove HO m hs = None.
+Proof. exact map_prove_untracked. Qed.
+Print Assumptions C09c_prove_untracked.
+
+Theorem C09c_roots : forall (H : Type) (HO : ops H)
+  (s : slots H) (R : list H) (m : mstate H), consistent HO s R m ->
+  getRoots HO m = roots HO s.
+Proof. exact map_getroots. Qed.
+Print Assumptions C09c_roots.
+
+Theorem C09c_missing : forall (H : Type) (HO : ops H), ops_ok HO ->
+  forall (s : slots H) (R : list H) (m : mstate H), consistent HO s R m ->
+  forall (hs : list H) (ts : list (node H)), NoDup hs ->
+  find_leaves HO (layout HO s) hs = Some ts ->
+  GetMissingPositions m (map (npos (rows_of (num_leaves s))) ts) =
+  map fst (filter (fun e : N * (nat * N) => unstored m (gp (ms_total m) (fst (snd e)) (snd (snd e))))
+                  (sort_coords (rows_of (num_leaves s)) (proof_coords (layout HO s) ts))).
+Proof. exact map_missing_spec. Qed.
+Print Assumptions C09c_missing.
+
+Theorem C09c_missing_oracle : forall (H : Type) (HO : ops H), ops_ok HO ->
+  forall (s : slots H) (R : list H) (m : mstate H), consistent HO s R m ->
+  forall (hs : list H) (ts : list (node H)), NoDup hs ->
+  find_leaves HO (layout HO s) hs = Some ts ->
+  exp_missing_stored HO (mk_ctx HO s) hs (stored_min m) =
+  Some (GetMissingPositions m (map (npos (rows_of (num_leaves s))) ts)).
+Proof. exact map_missing_oracle. Qed.
+Print Assumptions C09c_missing_oracle.
+
+Theorem C09c_consistentb_sound : forall (H : Type) (HO : ops H), ops_ok HO ->
+  forall (s : slots H) (R : list H) (m : mstate H),
+  consistentb HO s R m = true -> consistent HO s R m.
+Proof. exact consistentb_sound. Qed.
+Print Assumptions C09c_consistentb_sound.
+
+Theorem C09c_needed_stored : forall (H : Type) (HO : ops H), ops_ok HO ->
+  forall (s : slots H) (R : list H) (m : mstate H), consistent HO s R m ->
+  forall nd : list N, needed_pos HO s R = Some nd ->
+  forall p : N, In p nd -> In p (stored_min m).
+Proof. exact consistent_needed_stored. Qed.
+Print Assumptions C09c_needed_stored.
+
+Theorem C09c_consistent_intro_needed : forall (H : Type) (HO : ops H), ops_ok HO ->
+  forall (s : slots H) (R : list H) (m : mstate H),
+  ms_n m = num_leaves s -> ms_n m <= 2 ^ 63 ->
+  Utils.TreeRows (ms_n m) <= ms_total m -> ms_total m <= 63 ->
+  (forall p h b, In (p, (h, b)) (ms_nodes m) ->
+     exists r o, p = gp (ms_total m) r o /\ LayoutStruct.thash HO s r o = Some h) ->
+  (forall h, In h R -> In (Some h) s) ->
+  (forall h, In h R <-> In h (map fst (ms_cached m))) ->
+  (forall h p, In (h, p) (ms_cached m) ->
+     exists x, find_leaf HO (layout HO s) h = Some x /\ p = gp (ms_total m) (nrow x) (noff x)) ->
+  (forall x, In x (layout HO s) -> nroot x = true -> stored m (gp (ms_total m) (nrow x) (noff x))) ->
+  (forall nd, needed_pos HO s R = Some nd -> forall p, In p nd -> In p (stored_min m)) ->
+  consistent HO s R m.
+Proof. exact consistent_intro_needed. Qed.
+Print Assumptions C09c_consistent_intro_needed.
